@@ -27,7 +27,37 @@ def scenarios(rng, tier):
     s.start('band_count'); s.op('mk 0'); s.op('band_init 0')
     for i in range(25): s.op('band_hello 0')
     s.op('band_update 0'); s.op('band_choose 0'); s.op('band_do_hello 0')
+    # the same at the end of enumeration blocks as the periodic tick reaches them (block time 300 ms, ticks every 100 ms,
+    # Hello deadline and block deadline falling into the same tick or not, bursts of Hellos heard in some blocks)
+    for k in range(40 if tier == 'quick' else 2000):
+        s.start('tick_%d' % k); s.op('mk 0'); s.op('adv', 1000 + rng.randrange(5000))
+        s.op('st_add 0', hx(mac(1)), 1, 1); s.op('ss_enum 0 3'); s.op('band_init 0'); s.op('band_choose 0')
+        step = rng.choice([100, 100, 50, 150, 300])
+        for i in range(rng.choice([30, 60])):
+            s.op('adv', step)
+            if rng.random() < 0.35:
+                for j in range(rng.choice([1, 2, 5, 12, 20, 40])): s.op('band_hello 0')
+            if rng.random() < 0.1: s.op('st_add 0', hx(mac(1)), 1, rng.randrange(3))
+            s.op('tick 0')
     return [(s.text(), {})]
+def oracle(name, ib, mb, meta):
+    fails = []; now = 0; pre = None
+    F = V.facts(); NMAX, ALPHA, BETA, TXC, GAMMA, MULF = F.get('BAND_NMAX', 10000), F.get('BAND_ALPHA', 45), F.get('BAND_BETA', 2), F.get('BAND_TXC', 4), F.get('BAND_GAMMA', 10), F.get('BAND_MUL_FRAME_1', 6)
+    NMAXd, ALPHAd = 10000, 45          # the documented constants of the property
+    for i, b in enumerate(ib):
+        if b.fault: break
+        if 'now' in b.kv: now = int(b.kv['now'])
+        if b.op.startswith('tick') and pre is not None and all(k in pre for k in ('r', 'begun', 'bts')) and 'ni' in b.kv:
+            r, begun, bts = int(pre['r']), pre['begun'] == '1', int(pre['bts'])
+            if r > 0 and begun and 0 < bts <= now and b.kv.get('r') == '0' and b.kv.get('enum', '').startswith('1'):
+                ni = int(b.kv['ni']); want = min(NMAXd, ALPHAd * r * r)
+                if ni != want: fails.append((i, 'block ended with r=%d Hellos heard: repetition count %d, formula min(NMAX, ALPHA*r^2) gives %d' % (r, ni, want)))
+                interval = -(-(4 * ni * 20) // 30)
+                hts = int(b.kv.get('hts', 0))
+                if hts and hts < now + max(interval, 6):
+                    fails.append((i, 'block ended with r=%d (count %d) at %d ms: next Hello scheduled at %d ms, the load formula allows it no sooner than %d ms' % (r, ni, now, hts, now + max(interval, 6))))
+        if any(k in b.kv for k in ('r', 'bts')): pre = b.kv
+    return fails
 def project(blk, name, meta):
     return project_keys(blk, ['ni', 'r', 'begun', 'hts', 'bts', 'ret'])
 def count(name, lines, ib, stats, meta):
